@@ -18,7 +18,9 @@
           SectionalNeedleIdLimit (before: the difference was truncated to uint32 and another
           key's entry was returned / deleted);
      (ii) setOverflowEntry also stores OffsetHigher when it overwrites an existing overflow
-          entry (before: the stale high byte was kept under 5BytesOffset). *)
+          entry (before: the stale high byte was kept under 5BytesOffset);
+     (iii) CompactSection.Delete returns the size of an overflow entry only if it is valid
+          (before: deleting an already deleted overflow entry returned its negative size). *)
 From Coq Require Import List NArith ZArith Bool.
 From SW Require Export model.EcIndex.
 Import ListNotations.
@@ -153,7 +155,8 @@ Definition sec_delete (s : section) (key : N) : section * Z :=
   match find_overflow (s_overflow s) skey with
   | Some (_, o) =>
       ({| s_start := s_start s; s_end := s_end s; s_values := vals';
-          s_overflow := delete_overflow (s_overflow s) skey |}, ssz o)       (* ret = v.Size *)
+          s_overflow := delete_overflow (s_overflow s) skey |},
+       if size_is_valid (ssz o) then ssz o else ret)      (* repaired: if v.Size.IsValid() { ret = v.Size } *)
   | None =>
       ({| s_start := s_start s; s_end := s_end s; s_values := vals'; s_overflow := s_overflow s |}, ret)
   end.
@@ -294,27 +297,6 @@ Fixpoint ref_run (r : rmap) (ops : list op) : list res * rmap :=
                  let '(rs, fin) := ref_run r' ops' in (x :: rs, fin)
   end.
 
-(* known finding 0: a Delete whose key is stored in a section's overflow list with an already
-   negated (negative) size; CompactSection.Delete then returns that negative size *)
-Definition redelete_at (batch : N) (cm : cmap) (key : N) : bool :=
-  match locate batch cm key with
-  | None => false
-  | Some x =>
-      let s := nth x cm empty_section in
-      match find_overflow (s_overflow s) (u32 (sub64 key (s_start s))) with
-      | Some (_, o) => (ssz o <? 0)%Z
-      | None => false
-      end
-  end.
-Fixpoint trig_redelete_from (batch : N) (cm : cmap) (ops : list op) : bool :=
-  match ops with
-  | [] => false
-  | o :: ops' =>
-      (match o with Del k _ => redelete_at batch cm k | _ => false end)
-      || trig_redelete_from batch (fst (cm_step batch cm o)) ops'
-  end.
-Definition trig_redelete (batch : N) (ops : list op) : bool := trig_redelete_from batch [] ops.
-
 (* ---------- mapMetric ---------- *)
 Record metric := { m_del : N; m_file : N; m_delb : N; m_fileb : N; m_max : N }.
 Definition metric0 : metric := {| m_del := 0; m_file := 0; m_delb := 0; m_fileb := 0; m_max := 0 |}.
@@ -449,7 +431,7 @@ Fixpoint bool_list_eqb (a b : list bool) : bool :=
   | x :: a', y :: b' => Bool.eqb x y && bool_list_eqb a' b'
   | _, _ => false
   end.
-(* known finding 3: some bloom answer is a false positive *)
+(* known finding 2: some bloom answer is a false positive *)
 Definition trig_bloom_fp (osz : N) (idx : list N) (ans : list bool) : bool :=
   negb (bool_list_eqb ans (exact_answers [] (rev (walk osz idx)))).
 
@@ -514,10 +496,10 @@ Definition op_in_range (osz : N) (o : op) : bool :=
   | Del k off => (k <? two64) && (off <? 256 ^ osz)
   | Get k => k <? two64
   end.
-(* known finding 1: a Put of size 0 (an empty blob) *)
+(* known finding 0: a Put of size 0 (an empty blob) *)
 Definition trig_empty_put (ops : list op) : bool :=
   existsb (fun o => match o with Put _ _ sz => (sz =? 0)%Z | _ => false end) ops.
-(* known finding 2: some key is Put more than once *)
+(* known finding 1: some key is Put more than once *)
 Fixpoint trig_rewrite_from (seen : list N) (ops : list op) : bool :=
   match ops with
   | [] => false
